@@ -37,7 +37,7 @@ def run(ctx):
     warnings.filterwarnings("ignore")
     rng = ctx.rng
     ctx.rule = ("(i) bit comparison of real embeddings: densmap=True with dens_lambda=0 or dens_frac=0 vs plain UMAP, same seed and n_epochs "
-                "(11, 30, 200, and lists such as [40, 15] in any order, with the intermediate embeddings), several datasets / seeds, also the per-epoch flag vs the Lean model's densmapFlag; (ii) output_dens=True: "
+                "(5 on graphs with many weak edges, 11, 30, 200, and lists such as [40, 15] in any order, with the intermediate embeddings), several datasets / seeds, also the per-epoch flag vs the Lean model's densmapFlag; (ii) output_dens=True: "
                 "(embedding, rad_orig, rad_emb) shapes and finiteness for non-isolated samples, rad_orig vs the weighted mean squared "
                 "graph distance recomputed in float64 from graph_ / graph_dists_ and vs the Lean Radii model, rad_emb vs the same "
                 "quantity on the embedding's own fuzzy kNN graph (squared embedding distances); unique=True with duplicated rows: one radius per input row, shared by duplicates, equal to the definition; non-trivial = every fit")
@@ -74,6 +74,23 @@ def run(ctx):
                     d = float(np.max(np.abs(e - plain))) if e.shape == plain.shape else float("nan")
                     ctx.violation("reduction", f"densMAP with {label} differs from plain UMAP (max |diff| = {d})", case)
                 ctx.case(key=str(case), nontrivial=True, sample=case if len(ctx.samples) < 3 else None, part="reduction", setting=label, n_epochs=ne)
+
+        # short runs (n_epochs <= 10) on a graph with many weak edges: the pruning before the optimisation must be the same
+        Xs = rng.normal(size=(int(rng.integers(150, 260)), 6)).astype(np.float32)
+        for ne in ((5, 0, 10) if ctx.thorough else (5,)):
+            base = dict(n_neighbors=int(rng.integers(20, 32)), random_state=seed, n_epochs=ne, set_op_mix_ratio=float(rng.choice([0.1, 0.2])))
+            case = {"n": len(Xs), "n_epochs": ne, "seed": seed, "setting": "lambda=0, short run, weak edges", **{k_: base[k_] for k_ in ("n_neighbors", "set_op_mix_ratio")}}
+            try:
+                ep = umap.UMAP(**base).fit(Xs)
+                ed = umap.UMAP(densmap=True, dens_lambda=0.0, **base).fit_transform(Xs)
+            except Exception as ex:  # noqa
+                ctx.violation("exception", f"short-run fit raised {type(ex).__name__}: {ex}", case)
+                continue
+            if not np.array_equal(ed, ep.embedding_, equal_nan=True):
+                ctx.violation("reduction", f"densMAP with dens_lambda=0 and n_epochs={ne} differs from plain UMAP with the same n_epochs "
+                                           f"(max |diff| = {float(np.nanmax(np.abs(ed - ep.embedding_)))})", case, key="C17:short-run-pruning-depends-on-densmap")
+            gd = ep.graph_.data
+            ctx.case(key=str(case), nontrivial=bool(((gd < gd.max() / 500) & (gd >= gd.max() / 700)).any()), part="reduction-short", n_epochs=ne)
 
         # list-valued n_epochs (intermediate embeddings are kept): "equal n_epochs" means the same list, in any order
         for nel in ([[40, 15], [10, 25, 18], [12, 30]] if ctx.thorough else [[40, 15], [10, 25, 18]][s % 2: s % 2 + 1]):
@@ -147,7 +164,7 @@ def run(ctx):
                     continue
                 if not (np.all(np.isfinite(ro[deg > 0])) and np.all(np.isfinite(re[deg > 0]))):
                     ctx.violation("radii-finite", "non-finite radius of a non-isolated sample", dict(case, densmap=dm))
-                ref, edges = radii_reference(m.graph_, m.graph_dists_, ne if ne > 10 else 500 + (200 if dm else 0))
+                ref, edges = radii_reference(m.graph_, m.graph_dists_, ne if ne > 10 else 500)
                 ok = np.isfinite(ref)
                 if np.max(np.abs(ro[ok] - ref[ok])) > 2e-2:
                     i = int(np.argmax(np.where(ok, np.abs(ro - ref), 0)))
